@@ -9,7 +9,7 @@ report the function as unparsed).  Comment-only / whitespace-only edits must giv
 /repo is never written; the scratch directory is removed at the end.  Prints a JSON report; exit code 0 iff
 every expectation holds.
 
-usage: python3 src_tie_selftest.py [--keep] [--only NAME]
+usage: python3 src_tie_selftest.py [--keep] [--only NAME] [--match SUBSTRING] [--jobs N] [--no-baseline]
 """
 import json, os, shutil, subprocess, sys, time
 
@@ -21,7 +21,7 @@ BUILD_LIB = os.path.join(LEAN_DIR, ".lake", "build", "lib", "lean")
 PROOFS = ["PQ/Lemmas/SrcEquivBase.lean", "PQ/Lemmas/SrcEquiv.lean", "PQ/Lemmas/SrcEquivStore.lean",
           "PQ/Lemmas/SrcEquivDQ.lean", "PQ/Lemmas/SrcEquivOps.lean", "PQ/Lemmas/SrcEquivStore2.lean",
           "PQ/Lemmas/SrcEquivPush.lean", "PQ/Lemmas/SrcEquivOps2.lean", "PQ/Lemmas/SrcEquivBulk.lean",
-          "PQ/Lemmas/SrcEquivIter.lean"]
+          "PQ/Lemmas/SrcEquivBulkQ.lean", "PQ/Lemmas/SrcEquivIter.lean", "PQ/Lemmas/SrcEquivPanic.lean"]
 
 ST, PQ, DQ = "src/store.rs", "src/priority_queue/mod.rs", "src/double_priority_queue/mod.rs"
 # (name, file, old text, new text, which occurrence (0-based), kind)   kind: "mutant" | "neutral"
@@ -66,6 +66,35 @@ EDITS = [
      "self.find_min().and_then(|i| {\n            let r = self.store.swap_remove(i);", 0, "mutant"),
     ("dq_find_min_nonempty", DQ, "            0 => None,\n            _ => Some(Position(0)),",
      "            0 => None,\n            _ => Some(Position(1)),", 0, "mutant"),
+    # ---- translator holes found by review: conditional compilation, decoys, accessors, derived orderings
+    ("hole_cfg_statement", PQ, "            self.store.swap(i, largest);\n\n            i = largest;",
+     "            #[cfg(any())]\n            self.store.swap(i, largest);\n\n            i = largest;", 0, "mutant"),
+    ("hole_cfg_block", ST, "        self.size -= 1;\n\n        // Fix indexes",
+     "        #[cfg(any())]\n        {\n            self.size -= 1;\n        }\n\n        // Fix indexes", 0, "mutant"),
+    ("hole_cfg_fn", PQ, "    fn heapify(&mut self, mut i: Position) {", "    #[cfg(any())]\n    fn heapify(&mut self, mut i: Position) {", 0, "mutant"),
+    ("hole_cfg_impl", DQ, "impl<I, P, H> DoublePriorityQueue<I, P, H>\nwhere\n    P: Ord,\n{\n    /**",
+     "#[cfg(any())]\nimpl<I, P, H> DoublePriorityQueue<I, P, H>\nwhere\n    P: Ord,\n{\n    /**", 0, "mutant"),
+    ("hole_decoy_fn_other_file", "src/lib.rs", "pub mod priority_queue;",
+     "pub mod priority_queue;\n#[allow(dead_code)]\nfn heapify() {}", 0, "mutant"),
+    ("hole_macro_rules", ST, "use std::mem::swap;", "use std::mem::swap;\nmacro_rules! redefine { () => {}; }", 0, "mutant"),
+    ("hole_store_len", ST, "    pub fn len(&self) -> usize {\n        self.size\n    }",
+     "    pub fn len(&self) -> usize {\n        self.size + 1\n    }", 0, "mutant"),
+    ("hole_store_is_empty", ST, "    pub fn is_empty(&self) -> bool {\n        self.size == 0\n    }",
+     "    pub fn is_empty(&self) -> bool {\n        self.map.is_empty()\n    }", 0, "mutant"),
+    ("hole_queue_len", PQ, "    pub fn len(&self) -> usize {\n        self.store.len()\n    }",
+     "    pub fn len(&self) -> usize {\n        self.store.map.len()\n    }", 0, "mutant"),
+    ("hole_arith_decoy", PQ, "#[inline(always)]\nconst fn parent(i: Position) -> Position {\n    Position((i.0 - 1) / 2)\n}",
+     "#[cfg(any())]\nconst fn parent(i: Position) -> Position {\n    Position((i.0 - 1) / 2)\n}\n"
+     "#[cfg(all())]\nconst fn parent(i: Position) -> Position {\n    Position(i.0 / 2)\n}", 0, "mutant"),
+    ("hole_arith_attr", DQ, "#[inline(always)]\nconst fn level(i: Position) -> usize {",
+     "#[cfg(all())]\nconst fn level(i: Position) -> usize {", 0, "mutant"),
+    ("hole_position_ord", ST, "#[derive(Copy, Clone, Debug, Ord, PartialOrd, Eq, PartialEq)]\npub(crate) struct Position(pub usize);",
+     "#[derive(Copy, Clone, Debug, Eq, PartialEq)]\npub(crate) struct Position(pub usize);\n"
+     "impl PartialOrd for Position {\n    fn partial_cmp(&self, o: &Self) -> Option<std::cmp::Ordering> {\n        Some(self.cmp(o))\n    }\n}\n"
+     "impl Ord for Position {\n    fn cmp(&self, o: &Self) -> std::cmp::Ordering {\n        o.0.cmp(&self.0)\n    }\n}", 0, "mutant"),
+    ("hole_store_field_type", ST, "    pub heap: Vec<Index>,       // Implements the heap of indexes\n    pub qp: Vec<Position>,      // Performs the translation from the index\n    // of the map to the index of the heap\n    pub size: usize, // The size of the heap\n}\n\n#[derive(Clone)]\n#[cfg(not",
+     "    pub heap: std::collections::VecDeque<Index>,\n    pub qp: Vec<Position>,\n    pub size: usize,\n}\n\n#[derive(Clone)]\n#[cfg(not", 0, "mutant"),
+    ("hole_rename_local", PQ, "largestp", "lp", -1, "neutral"),
     # ---- phase 5.1: the remaining Store functions
     ("store_clear_order", ST, "        self.size = 0;\n        self.map.clear();",
      "        self.map.clear();\n        self.size = 0;", 0, "mutant"),
@@ -113,6 +142,29 @@ EDITS = [
     ("dq_peek_min_mut_uses_max", DQ, "self.find_min()\n            .and_then(move |i| {", "self.find_max()\n            .and_then(move |i| {", 0, "mutant"),
     ("dq_peek_max_mut_table", DQ, ".get_index_mut2(unsafe { *self.store.heap.get_unchecked(i.0) }.0)",
      ".get_index_mut2(unsafe { *self.store.qp.get_unchecked(i.0) }.0)", 1, "mutant"),
+    # ---- phase 5.3: bulk construction
+    ("store_from_vec_counter", ST, "                store.heap.push(Index(i));\n                i += 1;",
+     "                store.heap.push(Index(i));\n                i += 2;", 0, "mutant"),
+    ("store_from_vec_no_size", ST, "        store.size = i;\n", "", 0, "mutant"),
+    ("store_from_iter_keeps_item", ST, "                *old_item = item;\n", "", 0, "mutant"),
+    ("store_from_iter_capacity", ST, "let mut store = if min > 0 {", "let mut store = if min > 1 {", 0, "mutant"),
+    ("store_extend_replaces_item", ST, "let (_, _, old_priority) = self.map.get_full_mut2(&item).unwrap();\n                *old_priority = priority;",
+     "let (_, old_item, old_priority) = self.map.get_full_mut2(&item).unwrap();\n                *old_item = item;\n                *old_priority = priority;", 0, "mutant"),
+    ("store_extend_order", ST, "                self.qp.push(Position(self.size));\n                self.heap.push(Index(self.size));\n                self.size += 1;\n            }\n        }\n    }\n}\n\nuse std::fmt;",
+     "                self.size += 1;\n                self.qp.push(Position(self.size));\n                self.heap.push(Index(self.size));\n            }\n        }\n    }\n}\n\nuse std::fmt;", 0, "mutant"),
+    ("store_visit_seq_uncapped", ST, "Store::with_capacity_and_default_hasher(size.min(MAX_PREALLOCATED))",
+     "Store::with_capacity_and_default_hasher(size)", 0, "mutant"),
+    ("store_visit_seq_cap_value", ST, "const MAX_PREALLOCATED: usize = 4096;", "const MAX_PREALLOCATED: usize = 8192;", 0, "mutant"),
+    ("store_visit_seq_is_some", ST, "if store.map.insert(item, priority).is_none() {", "if store.map.insert(item, priority).is_some() {", 0, "mutant"),
+    ("store_retain_adapter", ST, "self.retain_mut(|i, p| predicate(&*i, &*p));", "self.retain_mut(|i, p| !predicate(&*i, &*p));", 0, "mutant"),
+    ("pq_retain_mut_no_rebuild", PQ, "        self.store.retain_mut(predicate);\n        self.heap_build();", "        self.store.retain_mut(predicate);", 0, "mutant"),
+    ("dq_retain_no_rebuild", DQ, "        self.store.retain(predicate);\n        self.heap_build();", "        self.store.retain(predicate);", 0, "mutant"),
+    ("pq_append_no_rebuild", PQ, "        self.store.append(&mut other.store);\n        self.heap_build();", "        self.store.append(&mut other.store);", 0, "mutant"),
+    ("dq_from_vec_no_rebuild", DQ, "        let store = Store::from(vec);\n        let mut pq = DoublePriorityQueue { store };\n        pq.heap_build();",
+     "        let store = Store::from(vec);\n        let mut pq = DoublePriorityQueue { store };", 0, "mutant"),
+    ("pq_from_iter_uses_from", PQ, "let store = Store::from_iter(iter);", "let store = Store::from(iter.into_iter().collect::<Vec<_>>());", 0, "mutant"),
+    ("pq_from_queue_no_rebuild", PQ, "        let mut this = Self { store };\n        this.heap_build();", "        let mut this = Self { store };", 0, "mutant"),
+    ("dq_deserialize_no_rebuild", DQ, "                let mut pq = DoublePriorityQueue { store };\n                pq.heap_build();", "                let mut pq = DoublePriorityQueue { store };", 0, "mutant"),
     ("dq_comment_only", DQ, "fn heapify_min(&mut self, mut i: Position) {",
      "fn heapify_min(&mut self, mut i: Position) {\n        // trickle down on a min level", 0, "neutral"),
     ("comment_only", PQ, "fn heapify(&mut self, mut i: Position) {",
@@ -186,41 +238,46 @@ def main():
     _, rep = gen(base, base_out)
     base_text = open(base_out).read()
     on_disk = open(os.path.join(LEAN_DIR, "PQ", "Model", "SrcGen.lean")).read()
-    comp = compile_proofs(base, base_out)
+    comp = [] if "--no-baseline" in sys.argv else compile_proofs(base, base_out)
     report["baseline"] = {"unparsed": rep.get("unparsed"), "same_as_PQ/Model/SrcGen.lean": base_text == on_disk,
                           "proofs": comp, "proofs_ok": all(c["ok"] for c in comp)}
     if not (report["baseline"]["proofs_ok"] and base_text == on_disk and not rep.get("unparsed")):
         report["ok"] = False
-    for name, file, old, new, occ, kind in EDITS:
-        if only and name != only:
-            continue
+    def run_edit(edit):
+        name, file, old, new, occ, kind = edit
         work = os.path.join(SCRATCH, name)
         os.makedirs(work)
         shutil.copytree(os.path.join(REPO, "src"), os.path.join(work, "src"))
         path = os.path.join(work, file)
         text = open(path).read()
         idx = -1
-        for _ in range(occ + 1):
-            idx = text.find(old, idx + 1)
+        if occ == -1:                                   # replace every occurrence (renamings)
+            idx = text.find(old)
+            if idx >= 0:
+                text = text.replace(old, new)
+                old = new = ""
+                idx = 0
+        else:
+            for _ in range(occ + 1):
+                idx = text.find(old, idx + 1)
         entry = {"edit": name, "file": file, "kind": kind}
         if idx < 0:
             entry["result"] = "edit does not apply (source text not found)"
             entry["as_expected"] = False
-            report["ok"] = False
-            report["edits"].append(entry)
-            continue
+            return entry
         open(path, "w").write(text[:idx] + new + text[idx + len(old):])
         out = os.path.join(work, "SrcGen.lean")
         _, rep = gen(work, out)
         mtext = open(out).read()
         entry["generated_text_changed"] = mtext != base_text
-        entry["unparsed"] = [u["fn"] + ": " + u["why"] for u in rep.get("unparsed", [])]
+        entry["unparsed"] = [u["fn"] + ": " + u["why"] for u in rep.get("unparsed", [])][:3] + \
+            ["arith " + u["fn"] + ": " + u["why"] for u in rep.get("arith_unparsed", [])]
         if kind == "neutral":
             entry["as_expected"] = (mtext == base_text)
         else:
             if entry["unparsed"]:
                 entry["result"] = "translator refuses the edited function (reported unparsed)"
-                entry["as_expected"] = entry["generated_text_changed"]
+                entry["as_expected"] = entry["generated_text_changed"] or any(u.startswith("arith ") for u in entry["unparsed"])
             else:
                 comp = compile_proofs(work, out)
                 entry["proofs"] = comp
@@ -228,9 +285,17 @@ def main():
                 entry["result"] = ("equivalence proof FAILS in " + ", ".join(failed)) if failed \
                     else "equivalence proofs still pass (edit NOT detected)"
                 entry["as_expected"] = bool(failed) and entry["generated_text_changed"]
-        if not entry["as_expected"]:
-            report["ok"] = False
-        report["edits"].append(entry)
+        return entry
+
+    match = sys.argv[sys.argv.index("--match") + 1] if "--match" in sys.argv else None
+    jobs = int(sys.argv[sys.argv.index("--jobs") + 1]) if "--jobs" in sys.argv else 4
+    todo = [e for e in EDITS if (not only or e[0] == only) and (not match or match in e[0])]
+    from concurrent.futures import ThreadPoolExecutor
+    with ThreadPoolExecutor(max_workers=jobs) as ex:
+        for entry in ex.map(run_edit, todo):
+            if not entry["as_expected"]:
+                report["ok"] = False
+            report["edits"].append(entry)
     if not keep:
         shutil.rmtree(SCRATCH, ignore_errors=True)
     json.dump(report, sys.stdout, indent=1)
